@@ -2,8 +2,8 @@ SPECIFICATION Spec
 CONSTANTS
   Depth = 2
   EmitB = TRUE
-  NStart = 14
+  NStart = 15
   OpFrom = 1
-  OpTo = 66
+  OpTo = 68
 INVARIANTS ObjectsOk RelativeOk StaysValid EmitBehaviour
 CHECK_DEADLOCK FALSE
